@@ -1,6 +1,6 @@
 /-
   C02 composition, stage C: the run-level theorems after the lift of the visible per-partition `deliver`.
-    * `DeliverVisConnProj M p` - OPEN (a named Prop), the ONE single-step statement left: the `deliver` step of a
+    * `DeliverVisConnProj M p` - (a named Prop; PROVED in Props/C02multiC2.lean, `deliverVisConnProj_holds`): the `deliver` step of a
       CONNECTION-ERROR answer (`.conn a`) for a set that holds something of `p`.
     * `deliverVisProj_of_conn : DeliverVisConnProj M p → DeliverVisProj M p` - PROVED (`.parts` answers:
       `proj_deliver_visible_parts_p`).  Hence `DeliverProj`, `ProjSim_partial'`, `log_order_every_partition_partial'`
@@ -19,7 +19,7 @@ namespace Props.C02sys
 open Model Model.Pipeline Model.PipelineN Model.BrokerProd Lemmas.C02sys
 
 /-- **the projection of the `deliver` step of a connection-error answer for a set that holds something of `p`**
-    (OPEN) -/
+    (a named Prop; proved in Props/C02multiC2.lean) -/
 def DeliverVisConnProj (M : Nat) (p : Int) : Prop :=
   ∀ (sN sN' : SysN) (s : Sys) (w : Nat) (st : Bool) (sent : List Pipeline.Tok) (rest : List (List Pipeline.Tok))
     (a : Bool) (base : Int → Nat),
